@@ -32,19 +32,39 @@ func (e *Engine) keyEq(a, b Value) smt.Term {
 	return e.valueEq(a, b)
 }
 
+func (e *Engine) mapAlts(st *State, m PtrV, where string) []PtrAlt {
+	return m.Alts
+}
+
+func (e *Engine) mapContentOf(st *State, o *Obj, where string) *MapContent {
+	mc, ok := st.Heap[o].(*MapContent)
+	if !ok {
+		if gv, ok2 := e.globalVals[o]; ok2 {
+			return gv.(*MapContent)
+		}
+		panic(e.unsupported("map object not in heap at " + where))
+	}
+	return mc
+}
+
 func (e *Engine) lookup(st *State, x *ssa.Lookup, m Value, k Value, where string) Value {
 	c := e.C
 	if sv, ok := m.(StringV); ok {
 		return e.indexValue(st, sv, k, x.X.Type(), where)
 	}
-	_, mc := e.mapObj(st, m.(PtrV), where)
 	mt := x.X.Type().Underlying().(*types.Map)
 	res := e.zero(mt.Elem())
 	found := c.False
-	for _, en := range mc.Entries {
-		hit := c.And(en.G, e.keyEq(en.K, k))
-		res = e.Merge(hit, en.V, res)
-		found = c.Or(found, hit)
+	for _, alt := range m.(PtrV).Alts {
+		if alt.Obj == nil || alt.G.IsFalse() {
+			continue
+		}
+		mc := e.mapContentOf(st, alt.Obj, where)
+		for _, en := range mc.Entries {
+			hit := c.And(alt.G, en.G, e.keyEq(en.K, k))
+			res = e.Merge(hit, en.V, res)
+			found = c.Or(found, hit)
+		}
 	}
 	if x.CommaOk {
 		return TupleV{res, BoolV{found}}
@@ -54,38 +74,45 @@ func (e *Engine) lookup(st *State, x *ssa.Lookup, m Value, k Value, where string
 
 func (e *Engine) mapUpdate(st *State, m PtrV, k, v Value, where string) {
 	c := e.C
-	o, mc := e.mapObj(st, m, where)
-	if o == nil {
-		e.fail(st, c.True, "nopanic:assignment-to-nil-map", where)
-		return
-	}
-	nm := &MapContent{}
-	for _, en := range mc.Entries {
-		g := c.And(en.G, c.Not(e.keyEq(en.K, k)))
-		if g.IsFalse() {
+	for _, alt := range m.Alts {
+		if alt.G.IsFalse() {
 			continue
 		}
-		nm.Entries = append(nm.Entries, MapEntry{K: en.K, V: en.V, G: g})
+		if alt.Obj == nil {
+			e.fail(st, alt.G, "nopanic:assignment-to-nil-map", where)
+			continue
+		}
+		mc := e.mapContentOf(st, alt.Obj, where)
+		nm := &MapContent{}
+		for _, en := range mc.Entries {
+			g := c.And(en.G, c.Not(c.And(alt.G, e.keyEq(en.K, k))))
+			if g.IsFalse() {
+				continue
+			}
+			nm.Entries = append(nm.Entries, MapEntry{K: en.K, V: en.V, G: g})
+		}
+		nm.Entries = append(nm.Entries, MapEntry{K: k, V: v, G: alt.G})
+		st.Heap[alt.Obj] = nm
 	}
-	nm.Entries = append(nm.Entries, MapEntry{K: k, V: v, G: c.True})
-	st.Heap[o] = nm
 }
 
 func (e *Engine) mapDelete(st *State, m PtrV, k Value, where string) {
 	c := e.C
-	o, mc := e.mapObj(st, m, where)
-	if o == nil {
-		return
-	}
-	nm := &MapContent{}
-	for _, en := range mc.Entries {
-		g := c.And(en.G, c.Not(e.keyEq(en.K, k)))
-		if g.IsFalse() {
+	for _, alt := range m.Alts {
+		if alt.Obj == nil || alt.G.IsFalse() {
 			continue
 		}
-		nm.Entries = append(nm.Entries, MapEntry{K: en.K, V: en.V, G: g})
+		mc := e.mapContentOf(st, alt.Obj, where)
+		nm := &MapContent{}
+		for _, en := range mc.Entries {
+			g := c.And(en.G, c.Not(c.And(alt.G, e.keyEq(en.K, k))))
+			if g.IsFalse() {
+				continue
+			}
+			nm.Entries = append(nm.Entries, MapEntry{K: en.K, V: en.V, G: g})
+		}
+		st.Heap[alt.Obj] = nm
 	}
-	st.Heap[o] = nm
 }
 
 func (e *Engine) mapLen(st *State, o *Obj) smt.Term {
@@ -111,10 +138,19 @@ func (e *Engine) rangeInit(st *State, x *ssa.Range, m Value, where string) Value
 	if !ok {
 		panic(e.unsupported("range over non-map at " + where))
 	}
-	_, mc := e.mapObj(st, pv, where)
+	var entries []MapEntry
+	for _, alt := range pv.Alts {
+		if alt.Obj == nil || alt.G.IsFalse() {
+			continue
+		}
+		mc := e.mapContentOf(st, alt.Obj, where)
+		for _, en := range mc.Entries {
+			entries = append(entries, MapEntry{K: en.K, V: en.V, G: c.And(alt.G, en.G)})
+		}
+	}
 	mt := x.X.Type().Underlying().(*types.Map)
 	o := e.newObj(KVal, nil, 0, "iter")
-	st.Heap[o] = &rangeIter{entries: mc.Entries, pos: c.BV(0, 64), kT: mt.Key(), vT: mt.Elem()}
+	st.Heap[o] = &rangeIter{entries: entries, pos: c.BV(0, 64), kT: mt.Key(), vT: mt.Elem()}
 	return mkPtr(c, o)
 }
 
